@@ -31,6 +31,13 @@ COLL = {
     "cms_aod": ('e.Muons("muons")', "reco::Muon"),
     "cms_miniaod": ('e.Muons("slimmedMuons")', "pat::Muon"),
 }
+# further built-in collections whose element type carries backend default method types
+ALT = {
+    "atlas": [('e.TruthParticles("TruthParticles")', "xAOD::TruthParticle")],
+    "cms_aod": [('e.GsfElectrons("gsfElectrons")', "reco::GsfElectron"), ('e.Tracks("generalTracks")', "reco::Track")],
+    "cms_miniaod": [('e.Electrons("slimmedElectrons")', "pat::Electron")],
+}
+BUILTIN = {"atlas": "Jets", "cms_aod": "Muons", "cms_miniaod": "Muons"}
 DEFAULT_BODY = {
     "atlas": 'lambda e: e.TruthParticles("TruthParticles").Select(lambda p: p.prodVtx().x())',
     "cms_aod": 'lambda e: e.Muons("muons").Select(lambda m: m.isPFMuon())',
@@ -46,6 +53,11 @@ def body_source(backend: str, key: str) -> str:
         return f"lambda e: {c}.Select(lambda j: j.foo())"
     if key == "undeclared2":
         return f"lambda e: {c}.Select(lambda j: j.bar() + j.foo())"
+    if key.startswith("undeclared_alt"):  # undeclared method on a type that HAS backend defaults
+        alts = ALT[backend]
+        return f"lambda e: {alts[(int(key[-1]) - 1) % len(alts)][0]}.Select(lambda j: j.foo())"
+    if key == "use_mycoll":  # a collection name that exists only if some metadata declared it
+        return 'lambda e: e.MyColl("bank").Select(lambda j: j.pt())'
     if key == "default":  # relies on the backend's default method types
         return DEFAULT_BODY[backend]
     if key == "enum":  # resolvable only if the enum xAOD.Jet.Color is in the namespace registry
@@ -61,8 +73,8 @@ def body_source(backend: str, key: str) -> str:
 
 def collection_md(bk: str, name: str):
     if bk == "atlas":
-        return {"metadata_type": "add_atlas_event_collection_info", "name": name, "include_files": ["xAODJet/JetContainer.h"],
-                "container_type": "xAOD::JetContainer", "element_type": "xAOD::Jet", "contains_collection": True}
+        return {"metadata_type": "add_atlas_event_collection_info", "name": name, "include_files": ["xAODCaloEvent/CaloClusterContainer.h"],
+                "container_type": "xAOD::CaloClusterContainer", "element_type": "xAOD::CaloCluster", "contains_collection": True}
     t = "add_cms_aod_event_collection_info" if bk == "cms_aod" else "add_cms_miniaod_event_collection_info"
     return {"metadata_type": t, "name": name, "include_files": ["DataFormats/X.h"], "container_type": "reco::XCollection",
             "element_type": "reco::X", "contains_collection": True, "element_pointer": False}
@@ -142,10 +154,25 @@ def snap_found(exe):
     return [[k, getattr(x, "image", repr(x))] for k, l in exe._found_extended_md.items() for x in l]
 
 
+_BUILTIN_KEYS = {}
+
+
+def created(exe):
+    """Remember the method table the constructor built (to see later what queries added to it)."""
+    _BUILTIN_KEYS[id(exe)] = dict(exe._method_names)
+    return exe
+
+
+def snap_methods(exe):
+    """Names whose entry is not the one the constructor installed (new names and overridden built-ins)."""
+    built = _BUILTIN_KEYS[id(exe)]
+    return sorted(k for k, v in exe._method_names.items() if built.get(k) is not v)
+
+
 def snap_exe(exe, backend):
     sd = shared_default()
     ext = ["shared"] if (sd is not None and exe._extended_md is sd) else ["own", sorted(exe._extended_md.keys())]
-    return [backend, [b.name for b in exe._job_option_blocks], [b.name for b in exe._inject_blocks], ext, snap_found(exe)]
+    return [backend, [b.name for b in exe._job_option_blocks], [b.name for b in exe._inject_blocks], ext, snap_found(exe), snap_methods(exe)]
 
 
 def snap_state(execs):
@@ -228,12 +255,12 @@ def main():
     for op in sc["ops"]:
         r = {}
         if op["op"] == "create":
-            execs.append((mk[op["backend"]](), op["backend"]))
+            execs.append((created(mk[op["backend"]]()), op["backend"]))
             r["outcome"] = ["created"]
         else:
             who = op["who"]
             if who == "new" or who >= len(execs):
-                execs.append((mk[op["backend"]](), op["backend"]))
+                execs.append((created(mk[op["backend"]]()), op["backend"]))
                 who = len(execs) - 1
             exe, backend = execs[who]
             a = build_ast(backend, op["body"], op["md"])
@@ -248,7 +275,7 @@ def main():
                     r["outcome"] = ["raised", "apply", type(e).__name__]
                     r["message"] = str(e)[:300]
                 else:
-                    r["view"] = [snap_mt(), snap_ns(), [b.name for b in exe._inject_blocks], [b.name for b in exe._job_option_blocks]]
+                    r["view"] = [snap_mt(), snap_ns(), [b.name for b in exe._inject_blocks], [b.name for b in exe._job_option_blocks], snap_methods(exe)]
                     try:
                         info = exe.write_cpp_files(a2, out)
                     except Exception as e:  # noqa: BLE001
